@@ -484,7 +484,7 @@ def conv_out(m, n, s, mode):
 def _conv_shapes(rng, maxn, fixed_m=None, fixed_n=None):
     D = len(fixed_m) if fixed_m is not None else len(fixed_n) if fixed_n is not None \
         else int(rng.integers(1, 4))
-    lim = [maxn, _cap(maxn, min(maxn, 5), 12), _cap(maxn, min(maxn, 4), 6)][D - 1]
+    lim = [_cap(maxn, maxn, 48), _cap(maxn, min(maxn, 5), 12), _cap(maxn, min(maxn, 4), 6)][D - 1]
     mode = pick(rng, ["full", "valid"])
     rel = pick(rng, ["shorter", "shorter", "equal", "longer"])
     m = list(fixed_m) if fixed_m is not None else _shape(rng, D, lim)
